@@ -6,10 +6,11 @@
    exactly once ([meta_ok]), the introspection calls agree with that structure, clear()
    leaves exactly one empty leaf, and storage never exceeds the largest number of nodes
    simultaneously live since construction or the last clear (ghost marks of [run_hw]).
-   OBLIGATIONS: C06_allocated_equals_reachable C06_introspection_agrees C06_slots_never_exceed_high_water_mark C06_growth_only_when_free_list_empty C06_clear_leaves_one_leaf C06_nonvacuous *)
+   OBLIGATIONS: C06_allocated_equals_reachable C06_introspection_agrees C06_slots_never_exceed_high_water_mark C06_growth_only_when_free_list_empty C06_clear_leaves_one_leaf C06_nonvacuous C06_reachable_states_have_room *)
 From BPT Require Import Common.Base Common.AMap Rust.Arena Rust.Tree Rust.Heap Rust.Readers Rust.Run
      Rust.InvDefs Rust.Repr Rust.Spec Rust.ReachDefs Rust.Bridge Rust.ValidAccept Rust.MiscProofs
      Rust.InsertProofs Rust.Reach Props.Reachable.
+From BPT Require Extra.RustExtra.
 
 Theorem C06_allocated_equals_reachable :
   forall (V : Type) (c : nat) (ops : list (op V)), 4 <= c -> fits (ops_weight ops) ->
@@ -68,3 +69,9 @@ Proof.
 Qed.
 
 Definition C06_nonvacuous := ReachExamples.ex_slots.
+
+(* discharges the room hypotheses of C06_growth_only_when_free_list_empty for all reachable states *)
+Theorem C06_reachable_states_have_room : forall (V : Type) (c : nat) (ops : list (op V)), 4 <= c -> fits (ops_weight ops + 1) ->
+  exists b, state_after c ops = Some b /\ Inv b /\ rooms b /\
+    room (lmeta b) 1 /\ room (bmeta b) (height (root b) + 2).
+Proof. exact RustExtra.reachable_states_have_room. Qed.
